@@ -232,7 +232,15 @@ def run_case(case):
         cfg = {"backend": sched, "clean_logs": case["clean_logs"]}
         if sched == "slurm":
             cfg["backend.slurm.log_mode"] = case["log_mode"]
+        set_off_via_cli = (not case["clean_logs"]) and len(case["targets"]) % 2 == 1
+        if set_off_via_cli:
+            del cfg["clean_logs"]
         proj.write_config(cfg)
+        if set_off_via_cli:  # switched off the way the documentation shows: gwf config set clean_logs no
+            rcfg = cli.gwf(proj.root, ["config", "set", "clean_logs", ["no", "false"][len(case["targets"][0]["uid"]) % 2 if False else (int(case["targets"][0]["uid"], 16) % 2)]], cli.env_for(None, ()), audit=False)
+            if rcfg.rc != 0:
+                res.violation("crash", "gwf config set clean_logs failed", **cli.crash_witness(rcfg))
+                return res
         logs = os.path.join(proj.root, ".gwf", "logs")
         os.makedirs(logs, exist_ok=True)
         planted = ["gone.stdout", "gone.stderr", "onlyerr.stderr", case["targets"][0]["name"] + ".stdout", case["targets"][0]["name"] + ".stderr", "notes.txt", "gone2.stdout"]
